@@ -53,6 +53,9 @@ pub fn vx_set_token_tag(tokens: &mut Tokens, i: usize, s: String)
 // ---- externals: regex-based helpers (uninterpreted) ----
 pub uninterp spec fn spec_env_in_token(t: Seq<char>) -> bool;
 pub open spec fn has_op(s: Seq<char>) -> bool { s.contains('|') || s.contains('&') || s.contains('<') || s.contains('>') }
+pub uninterp spec fn spec_is_assign(t: Seq<char>) -> bool;
+#[verifier::external_body]
+pub fn is_assignment_word(text: &str) -> (r: bool) ensures r == spec_is_assign(text@) { unimplemented!() }
 // which words expand_env may touch, and what one word may look like afterwards
 pub open spec fn env_elig(t: Token) -> bool { t.0@ != "`"@ && t.0@ != "'"@ && t.0@ != "\\"@ && spec_env_in_token(t.1@) }
 pub open spec fn env_tok_ok(o: Token, n: Token) -> bool {
@@ -60,7 +63,8 @@ pub open spec fn env_tok_ok(o: Token, n: Token) -> bool {
     // the tag is kept, or an unquoted word into which the value brought an operator character becomes double-quoted
     &&& (n.0@ == o.0@ || (o.0@.len() == 0 && n.0@ == "\""@ && !has_op(o.1@) && has_op(n.1@)))
     // C13: an operator character in a word that is still unquoted was written there, it did not come from a value
-    &&& (n.0@.len() == 0 && has_op(n.1@) ==> has_op(o.1@))
+    //      (NAME=value words are exempt: they are taken off the line as assignments before operators are looked for)
+    &&& (n.0@.len() == 0 && has_op(n.1@) ==> has_op(o.1@) || spec_is_assign(o.1@))
 }
 pub open spec fn env_lo(b: Seq<(usize, String)>, m: int, n: int) -> int { if 0 <= m < b.len() { b[m].0 as int } else { n } }
 
